@@ -404,7 +404,7 @@ _SIZE_LINE = re.compile(rb'\A([0-9a-fA-F]{1,6})(;.*)?\Z', re.DOTALL)
 
 
 def py_parse_chunked(stream: bytes):
-    """Strict HTTP/1.1 chunked-body grammar (no trailers) -> (ok, body, used).
+    """Strict HTTP/1.1 chunked-body grammar (no trailers) -> (ok, body, used, number of chunks read).
 
     Mirror of HttpFraming!Parse restricted to strict spellings; used for bodies too large for TLC and
     cross-checked against TLC on every small case (clause harness_parser_agrees).
@@ -412,19 +412,21 @@ def py_parse_chunked(stream: bytes):
     pos = 0
     parts = []
     n = len(stream)
+    count = 0
     while True:
         e = stream.find(b'\r\n', pos)
         if e < 0:
-            return False, b'', 0
+            return False, b'', 0, count
         m = _SIZE_LINE.match(stream[pos:e])
         if not m:
-            return False, b'', 0
+            return False, b'', 0, count
         size = int(m.group(1), 16)
         d = e + 2
         if d + size + 2 > n or stream[d + size:d + size + 2] != b'\r\n':
-            return False, b'', 0
+            return False, b'', 0, count
+        count += 1
         if size == 0:
-            return True, b''.join(parts), d + 2
+            return True, b''.join(parts), d + 2, count
         parts.append(stream[d:d + size])
         pos = d + size + 2
 
